@@ -29,7 +29,7 @@ pub const IDENTS: &[&str] = &[
     "x", "y", "a", "b", "f", "g", "main", "s", "t", "i", "n", "v", "S", "T", "E", "M", "N", "A", "B", "g_tex", "g_buf", "value", "x_0", "f_0", "dot", "mul",
     "min", "max", "abs", "sin", "lerp", "saturate", "clamp", "Load", "Store", "Sample", "GetDimensions", "InterlockedAdd", "WaveActiveSum", "asuint",
     "asfloat", "length", "normalize", "cross", "select", "rcp", "sqrt", "xyzw", "xy", "rgba", "xxxx", "_m00", "_11_22", "SV_Position", "SV_Target0",
-    "SV_DispatchThreadID", "SV_GroupIndex", "TEXCOORD", "t0", "u1", "s2", "b3", "space0", "space4", "space99999", "c0", "__HLSL_VERSION",
+    "SV_DispatchThreadID", "SV_GroupIndex", "TEXCOORD", "t0", "u1", "s2", "b3", "space0", "space4", "space9999", "c0", "__HLSL_VERSION",
     "RSSL_TARGET_HLSL", "RSSL_TARGET_MSL", "__LINE__", "__FILE__", "__VA_ARGS__", "once",
 ];
 
@@ -71,10 +71,8 @@ pub const UNSUPPORTED: &[&str] = &[
     "Texture2D t : register(t4294967295);",
     "Texture2D t : register(t0, space4294967295);",
     "Texture2D t : register(t0, space4);",
-    "Texture2D t : register(space99999999);",
     "Texture2D t : register(x0);",
     "[[rssl::bind_group(4294967295)]] Texture2D t;",
-    "[[rssl::bind_group(100000000)]] Texture2D t;",
     "Texture2D t[4294967295];",
     "Texture2D t[];",
     "float a[0];",
